@@ -278,6 +278,8 @@ class FullExecutor(Executor):
             return V(ot, z3.If(present, coerce(val, ot).z, ot.sort().none))
         if name == "copy":
             return recv
+        if name == "keys" and not args:
+            return V(TSet(t.k), s.dom(recv.z))     # the keys view, as the set of keys (iteration order is not modelled)
         raise Unsupported(f"dict.{name}")
 
     # ------------------------------------------------------------------ constructing objects
@@ -318,6 +320,18 @@ class FullExecutor(Executor):
         k = key_of(cls.__init__) if hasattr(cls, "__init__") else None
         ck = f"{cls.__module__}:{cls.__qualname__}"
         c = CONTRACTS.get(ck) or CONTRACTS.get(ck + ".__init__")
+        if (c is None or cls not in REF_TYPES) and inspect.isclass(cls):
+            # a subclass that does not define its own constructor: the contract of the constructor it inherits applies
+            for base in inspect.getmro(cls)[1:]:
+                if "__init__" in cls.__dict__:
+                    break
+                bk = f"{base.__module__}:{base.__qualname__}"
+                bc = CONTRACTS.get(bk) or CONTRACTS.get(bk + ".__init__")
+                if bc is not None and base in REF_TYPES and bc.kind != "inline":
+                    c, cls = bc, base
+                    break
+                if "__init__" in base.__dict__:
+                    break
         if c is not None and cls in REF_TYPES:
             ref = self.alloc(st, REF_TYPES[cls])
             outs = self.call_contract(st, c, [ref] + args, kwargs, True, node, real_fn=cls.__init__)
@@ -729,6 +743,8 @@ class FullExecutor(Executor):
             raise Unsupported("star-args in call")
         if isinstance(f, PyObj) and f.o in (all, any, sum) and len(call.args) == 1 and isinstance(call.args[0], (ast.GeneratorExp, ast.ListComp)):
             return [(st, Outcome("value", self.quantified(st, f.o, call.args[0])))]
+        if self.is_ifquant(f) and len(call.args) == 1 and isinstance(call.args[0], (ast.GeneratorExp, ast.ListComp)):
+            return [(st, Outcome("value", self.quantified_choice(st, f, call.args[0])))]
         args = [self.eval(st, a) for a in call.args]
         kwargs = self.eval_kwargs(st, call.keywords)
         return self.apply(st, f, args, kwargs, call, stmt_level=True)
@@ -819,8 +835,12 @@ class FullExecutor(Executor):
                 raise Unsupported("bare raise outside handler")
             return [(st, Outcome("raise", cur))]
         e = s.exc
+        if isinstance(e, ast.Call) and isinstance(e.func, ast.Attribute) and e.func.attr == "with_traceback":
+            e = e.func.value          # x.with_traceback(tb) is x itself
         cls_node = e.func if isinstance(e, ast.Call) else e
         o = self.eval(st, cls_node)
+        if isinstance(o, V) and isinstance(o.ty, TRef) and not isinstance(e, ast.Call):
+            return [(st, Outcome("raise", self.raise_object(st, o)))]
         if isinstance(o, PyObj) and inspect.isclass(o.o) and issubclass(o.o, BaseException):
             val = None
             if isinstance(e, ast.Call) and e.args and not isinstance(e.args[0], (ast.JoinedStr, ast.Constant)):
@@ -930,10 +950,12 @@ class FullExecutor(Executor):
             if definite or maybe:
                 s2 = cur.fork() if maybe else cur
                 caught = exc if definite else ExcInfo(next(c for c in classes if issubclass(c, exc.cls)), True, exc.value, exc.line)
+                if not definite and getattr(exc, "obj", None) is not None:
+                    caught.obj = exc.obj
                 saved = s2.ghost.get("__handling__")
                 s2.ghost["__handling__"] = caught
                 if h.name:
-                    s2.env[h.name] = PyObj(caught)
+                    s2.env[h.name] = self.exc_object(s2, caught)
                 for s3, oc in self.exec_block(s2, h.body):
                     s3.ghost["__handling__"] = saved
                     outs.append((s3, oc))
@@ -941,6 +963,45 @@ class FullExecutor(Executor):
                     return outs
         outs.append((cur, Outcome("raise", exc)))
         return outs
+
+    def exc_object(self, st, caught):
+        """The value bound by `except C as name`.  When the caught class (or a base of it) is a declared heap class
+        (ref_class), the name denotes a reference of that class -- the very object when it was raised by `raise <ref>`,
+        otherwise an arbitrary one -- so that its fields can be read and it can be stored or passed on; the class
+        predicates registered for the family (EXC_CLASS_PREDS) are assumed as far as the caught class decides them.
+        Without a declared class: the class-level ExcInfo (as before)."""
+        for base in inspect.getmro(caught.cls):
+            if base in REF_TYPES:
+                rt = REF_TYPES[base]
+                obj = getattr(caught, "obj", None)
+                if isinstance(obj, V) and isinstance(obj.ty, TRef):
+                    ref = V(rt, obj.z)
+                else:
+                    ref = fresh(rt, "exc")
+                for k, pred in EXC_CLASS_PREDS.get(rt.cls, []):
+                    if issubclass(caught.cls, k):
+                        st.assume(pred(self, st, ref))
+                    elif not caught.or_subclass:
+                        st.assume(z3.Not(pred(self, st, ref)))       # the exact class is known and is not a subclass of k
+                return ref
+        return PyObj(caught)
+
+    def raise_object(self, st, v):
+        """`raise <ref>`: the class-level description of an exception OBJECT of a declared heap class: the most specific
+        class among the family's registered class predicates that the path condition entails (else the declared class),
+        or a subclass of it."""
+        cls = CLASS_OBJ.get(v.ty.cls)
+        if not (inspect.isclass(cls) and issubclass(cls, BaseException)):
+            raise Unsupported(f"raise of a {v.ty} value")
+        for k, pred in EXC_CLASS_PREDS.get(v.ty.cls, []):
+            if issubclass(k, cls) and k is not cls:
+                s2 = st.fork()
+                s2.assume(z3.Not(pred(self, s2, v)))
+                if not self.feasible(s2):
+                    cls = k
+        ei = ExcInfo(cls, or_subclass=True, value=[v], line=self.cur_line)
+        ei.obj = v
+        return ei
 
     # ------------------------------------------------------------------ loops
     def loop_ordinal(self, s):
@@ -1130,13 +1191,34 @@ class FullExecutor(Executor):
             src = unwrap_opt(src)
         if isinstance(src, V) and src.ty == SINK:
             src = fresh_seq(TList(SINK), st, "sinklist")     # iterating a reporting object: any number of sinks
+        if isinstance(src, PyObj) and isinstance(src.o, tuple) and src.o and src.o[0] == "genexp":
+            # `for x in (<elt> for ...)`: a generator consumed by this loop alone is the list of its elements, provided the
+            # loop body does not write anything the generator reads (its evaluation is interleaved with the body)
+            gnode = src.o[1]
+            written = self.modified_in(s.body)[0] | {n.id for n in ast.walk(s.target) if isinstance(n, ast.Name)}
+            read = {n.id for n in ast.walk(gnode) if isinstance(n, ast.Name)}
+            if (written & read) or self.modified_in(s.body)[1]:
+                raise Unsupported("for over a generator expression whose inputs the loop body may write")
+            src = self.comprehension(st, ast.ListComp(elt=gnode.elt, generators=gnode.generators))
         lo = z3.IntVal(0)
         if isinstance(src, PyObj) and isinstance(src.o, tuple):
             tag = src.o[0]
             if tag == "range":
                 ra = src.o[1]
-                lo, hi = (z3.IntVal(0), ra[0].z) if len(ra) == 1 else (ra[0].z, ra[1].z)
-                mode = "range"
+                if len(ra) == 3:
+                    stp = z3.simplify(ra[2].z)
+                    if z3.is_int_value(stp) and stp.as_long() == 1:
+                        ra = ra[:2]
+                    elif z3.is_int_value(stp) and stp.as_long() == -1:
+                        # range(a, b, -1): a, a-1, ..., b+1 -- iteration j (0-based) has the value a - j
+                        desc_from = ra[0].z
+                        lo, hi = z3.IntVal(0), z3.If(ra[0].z - ra[1].z > 0, ra[0].z - ra[1].z, z3.IntVal(0))
+                        mode = "range_desc"
+                    else:
+                        raise Unsupported("range() with a step other than 1 / -1")
+                if mode != "range_desc":
+                    lo, hi = (z3.IntVal(0), ra[0].z) if len(ra) == 1 else (ra[0].z, ra[1].z)
+                    mode = "range"
             elif tag == "enumerate":
                 src = src.o[1]
                 mode = "enumerate"
@@ -1173,7 +1255,7 @@ class FullExecutor(Executor):
             if not (isinstance(src, V) and isinstance(src.ty, TList)):
                 raise Unsupported(f"for over {src!r}")
             n = seq_len(src)
-        elif mode == "range":
+        elif mode in ("range", "range_desc"):
             n = hi
         elif mode == "zip":
             zs = [unwrap_opt(z) if isinstance(z, V) else z for z in zsrc]
@@ -1212,6 +1294,8 @@ class FullExecutor(Executor):
                 item = STuple([i, V(src.ty.elem, z3.Select(seq_arr(src), i.z))])
             elif mode == "range":
                 item = i
+            elif mode == "range_desc":
+                item = V(INT, desc_from - i.z)
             else:
                 item = STuple([V(z.ty.elem, z3.Select(seq_arr(z), i.z)) for z in zs])
             self.bind_target(it, s.target, item)
@@ -1241,6 +1325,9 @@ class FullExecutor(Executor):
 WITH_HOOKS: dict = {}
 CLASS_OF_HOOK: dict = {}     # ref-class name -> fn(executor, st, ref, real_class): record the dynamic class of a new object
 SINK_FUNCTIONS: set = set()      # "module:qualname" of UI functions whose calls are no-ops on the tracked state
+# exception objects as values: ref-class name of an exception family -> [(real exception class, fn(executor, st, ref) -> z3 Bool)]
+# "the object is an instance of that class"; used when an `except C as e` binds e and when `raise <ref>` is classified
+EXC_CLASS_PREDS: dict = {}
 
 
 class OldRef:
@@ -1264,7 +1351,7 @@ def resolve_exc(name: str, c: Contract):
     if hasattr(__import__("builtins"), name):
         return getattr(__import__("builtins"), name)
     import importlib
-    for modname in ("sqlfluff.core.errors", "sqlfluff.core.templaters.base"):
+    for modname in ("sqlfluff.core.errors", "sqlfluff.core.templaters.base", "bdb"):
         m = importlib.import_module(modname)
         if hasattr(m, name):
             return getattr(m, name)
